@@ -172,6 +172,15 @@ func ProcessDeposit(spec *common.Spec, epc *common.EpochsContext, state common.B
 		} else {
 			epc.ValidatorPubkeyCache = pc
 		}
+		// Keep the cached effective balances aligned with the registry, like a fresh EpochsContext has them.
+		// The slice may be shared with clones of the context: never append in place.
+		if n := len(epc.EffectiveBalances); uint64(n) == uint64(valIndex) {
+			effBalance := balance - (balance % spec.EFFECTIVE_BALANCE_INCREMENT)
+			if effBalance > spec.MAX_EFFECTIVE_BALANCE {
+				effBalance = spec.MAX_EFFECTIVE_BALANCE
+			}
+			epc.EffectiveBalances = append(epc.EffectiveBalances[:n:n], effBalance)
+		}
 	} else {
 		// Increase balance by deposit amount
 		bals, err := state.Balances()
